@@ -338,6 +338,10 @@ class Ctx:
         self.check(False, label)
 
 
+def _noop(*a, **k):
+    return None
+
+
 class Obligation:
     """base class; subclasses define id, title, scenario(), configs()"""
     id = None
@@ -359,11 +363,18 @@ class Obligation:
         raise NotImplementedError
 
     def make_interp(self):
-        return Interp(self.interpret_modules, sym_containers=self.sym_containers,
-                      loop_bound=self.loop_bound)
+        I = Interp(self.interpret_modules, sym_containers=self.sym_containers,
+                   loop_bound=self.loop_bound)
+        self.default_stubs(I)
+        return I
 
     def setup_interp(self, I, cfg):
         """register stubs / forced functions"""
+
+    def default_stubs(self, I):
+        from jedi import debug
+        for f in (debug.dbg, debug.warning, debug.speed):
+            I.stubs[f] = _noop
 
     # known-finding regions: {finding_id: description}
     findings = {}
